@@ -345,7 +345,7 @@ impl Check for C34 {
         let width = *r.pick(&[0u32, 0, 1, 1, 2, 3, 7, 20]);
         let hi = if incl { lo + width } else { lo + width + 1 };
         let mut ops = vec![TOp::Enable(true)];
-        let n = 2 + r.below(10);
+        let n = (2 + r.below(10)) * r.deep() as u64;
         for _ in 0..n {
             let mut pre: Option<TOp> = None;
             let opx = match r.below(14) {
